@@ -71,8 +71,6 @@ Qed.
 
 
 (* ---------- several ranges: one part per requested range, in request order ---------- *)
-Fixpoint join_with (c : N) (l : list (list N)) : list N :=
-  match l with [] => [] | [x] => x | x :: r => x ++ c :: join_with c r end.
 Lemma split_app_sep c a t : split (a ++ c :: t) [c] = split a [c] ++ split t [c].
 Proof. unfold split. apply split_aux_1_app. Qed.
 Lemma split_join c specs : specs <> [] -> Forall (fun sp => ~ In c sp) specs -> split (join_with c specs) [c] = specs.
